@@ -157,6 +157,45 @@ class WalkSep:
         return (b, True) in seen or (b, False) in seen
 
 
+class MixedWalkSep:
+    """m-connection in a mixed graph in the WALK formulation of lean/Y0/Spec/LatentSpec.lean (`MixedReach`):
+    state (node, arrowhead-at-node?); collider (two arrowheads) needs a descendant-or-self in Z along directed
+    edges, any other inner node must be outside Z."""
+
+    def __init__(self, nodes, di, bi):
+        self.nodes = list(nodes)
+        self.ch, self.pa, self.sp = {}, {}, {}
+        for u, v in di:
+            self.ch.setdefault(u, []).append(v)
+            self.pa.setdefault(v, []).append(u)
+        for e in bi:
+            u, v = tuple(e)
+            self.sp.setdefault(u, []).append(v)
+            self.sp.setdefault(v, []).append(u)
+        d = descendants({(u, v) for u, v in di})
+        self.desc = {v: frozenset(d(v)) for v in self.nodes}
+
+    def connected(self, a, b, Z):
+        Z = frozenset(Z)
+        ch, pa, sp = self.ch, self.pa, self.sp
+        seen = set()
+        todo = [(c, True) for c in ch.get(a, ())] + [(p, False) for p in pa.get(a, ())] + [(y, True) for y in sp.get(a, ())]
+        while todo:
+            st = todo.pop()
+            if st in seen:
+                continue
+            seen.add(st)
+            x, head = st
+            if head:
+                if x not in Z:
+                    todo += [(c, True) for c in ch.get(x, ())]
+                if self.desc[x] & Z:
+                    todo += [(p, False) for p in pa.get(x, ())] + [(y, True) for y in sp.get(x, ())]
+            elif x not in Z:
+                todo += [(p, False) for p in pa.get(x, ())] + [(c, True) for c in ch.get(x, ())] + [(y, True) for y in sp.get(x, ())]
+        return (b, True) in seen or (b, False) in seen
+
+
 def canonical_dag(observed, di, bi):
     """ADMG -> DAG with one fresh exogenous latent per bidirected edge; returns (nodes, edges, latent)"""
     nodes = list(observed)
